@@ -67,6 +67,26 @@ def run(tier, replay_file=None):
             R.violation(bad["clause"], bad)
             if len(R.violations) >= 20:
                 break
+    # (c) the compressing adapter: instances externalised before any session exists, server lost, restart, then used
+    h3, _ = gen.histories("Server", dict(consts('{"i1","i2"}', 4, DEV, '{"Start","SaveState","Crash","Begin","Step","Metrics"}', kv='{0,2}', sv='{0}', scen='{"base"}',
+                                                timeouts='{3}', ticks='{1}'), Compress="TRUE"), 5 if quick else 6)
+    h3 = [h for h in h3 if any(x["op"] == "Crash" for x in h)]
+    if quick:
+        import random as _r
+        h3 = _r.Random(common.seed()).sample(h3, min(len(h3), 300))
+    R.cov["compressing_adapter_histories"] = len(h3)
+    for hist in h3:
+        known = []
+        bad = srv_replay.replay(hist, stop=4, adapter=True, compress=True, base_constants=True, known=known, probe=True)
+        R.add("traces_validated_against_impl")
+        crashes += sum(1 for x in hist if x["op"] == "Crash")
+        for k in known:
+            known_total[k[0]] = known_total.get(k[0], 0) + 1
+        if bad:
+            bad["adapter"] = "FileAdapter(compress=True)"
+            R.violation(bad["clause"], bad)
+            if len(R.violations) >= 20:
+                break
     if not quick and h2:
         # torn write at every byte offset of the state file, for one history with a Tear followed by a Crash
         for hist in h2:
